@@ -595,7 +595,7 @@ fn boundary_values(t: &Type, rng: &mut Rng, iters: &BTreeMap<String, Variable>) 
         Type::Int => Variable::Int(*rng.pick(&[0i64, 1, -1, 2, 63, 64, 255, 256, i64::MAX, i64::MIN, i64::MIN + 1, -255, 1 << 32, 10])),
         Type::Float => Variable::Float(*rng.pick(&[0.0f64, -0.0, 1.0, -1.5, f64::NAN, f64::INFINITY, f64::NEG_INFINITY, f64::MAX, f64::MIN_POSITIVE, 5e-324, 1e308, 9.2e18, -9.3e18, 0.5, 1.0 + f64::EPSILON, 1.0 + 4.0 * f64::EPSILON, -1.0 - f64::EPSILON, 1.0 - f64::EPSILON / 2.0, -1.0, 0.9999999999999999, 2.0, -0.5])),
         Type::Bool => Variable::Bool(rng.chance(1, 2)),
-        Type::String => Variable::from(*rng.pick(&["", " ", "abc", "  padded \t\n", "\u{df}\u{130}\u{1F600}", "12", "-7", "1e5", "a,b,,c", "\0", "NaN", "9223372036854775808", "+5", " 5", "1_000", "0x10", "-0", "inf", ".5", "5.", "\u{a0}x\u{a0}", "aXbXc", "X", "\u{feff}x\u{feff}", " \u{feff} y", "\u{200b}z\u{200b}", "\u{2028}w\u{3000}"])),
+        Type::String => Variable::from(*rng.pick(&["", " ", "abc", "  padded \t\n", "\u{df}\u{130}\u{1F600}", "12", "-7", "1e5", "a,b,,c", "\0", "NaN", "9223372036854775808", "-9223372036854775808", "-9223372036854775809", "--5", "-+5", "+-5", "-", "+", "+5", " 5", "1_000", "0x10", "-0", "inf", ".5", "5.", "\u{a0}x\u{a0}", "aXbXc", "X", "\u{feff}x\u{feff}", " \u{feff} y", "\u{200b}z\u{200b}", "\u{2028}w\u{3000}"])),
         Type::Void => Variable::Void,
         Type::Any => {
             // values of every shape, incl. cells that are reachable from themselves
@@ -727,8 +727,33 @@ fn reference(name: &str, args: &[Variable]) -> Option<Variable> {
                 }
             }
         }
-        "convert.parse_int" => st(0)?.parse::<i64>().map(Variable::Int).unwrap_or(Variable::Void),
-        "convert.parse_float" => st(0)?.parse::<f64>().map(Variable::Float).unwrap_or(Variable::Void),
+        // "Parses string as int / float ... () otherwise": claimed only where "an int" leaves no
+        // room - an optional sign followed by decimal digits (the value, or () when it does not
+        // fit) and texts without any digit (()). What else an implementation accepts (prefixes,
+        // separators, blanks) is not specified.
+        "convert.parse_int" => {
+            let t = st(0)?;
+            let body = t.strip_prefix(['+', '-']).unwrap_or(&t);
+            if !body.is_empty() && body.bytes().all(|b| b.is_ascii_digit()) {
+                t.parse::<i64>().map(Variable::Int).unwrap_or(Variable::Void)
+            } else if !t.chars().any(|c| c.is_ascii_digit()) {
+                Variable::Void
+            } else {
+                return None;
+            }
+        }
+        "convert.parse_float" => {
+            let t = st(0)?;
+            let body = t.strip_prefix(['+', '-']).unwrap_or(&t);
+            let plain = !body.is_empty() && body.bytes().all(|b| b.is_ascii_digit() || b == b'.') && body.bytes().filter(|b| *b == b'.').count() <= 1 && body.bytes().any(|b| b.is_ascii_digit());
+            if plain {
+                t.parse::<f64>().map(Variable::Float).unwrap_or(Variable::Void)
+            } else if !t.chars().any(|c| c.is_ascii_digit()) && !["inf", "nan", "infinity"].contains(&t.trim_start_matches(['+', '-']).to_ascii_lowercase().as_str()) {
+                Variable::Void
+            } else {
+                return None;
+            }
+        }
         "convert.to_float" => match args.first()? {
             Variable::Int(x) => Variable::Float(*x as f64),
             Variable::Float(x) => Variable::Float(*x),
@@ -1058,6 +1083,9 @@ pub const MODULE_STATES: &[(&str, &str)] = &[
     ("truncated-utf8-3", ""),
     ("truncated-utf8-4", ""),
     ("bad-continuation", ""),
+    // a string literal containing a no-break space; names that differ only in case
+    ("nbsp-literal", "label := \"10\u{a0}km\""),
+    ("case-names", "g := 1; G := 2; id := 3; ID := 4; Id := 5"),
     // UTF-16 files (byte-order mark first): not valid UTF-8, whatever their length
     ("utf16le-odd", ""),
     ("utf16be-odd", ""),
@@ -1078,6 +1106,8 @@ fn module_names(state: &str) -> Option<Vec<&'static str>> {
         "empty" | "comment-only" | "whitespace-only" | "only-constant" => vec![],
         "constant-last" => vec!["a"],
         "shadows-importer" => vec!["w", "z"],
+        "nbsp-literal" => vec!["label"],
+        "case-names" => vec!["G", "ID", "Id", "g", "id"],
         "all-constructs" => vec!["acc", "fl", "fn1", "i", "m", "n", "p", "q", "sl", "st", "v", "w"],
         _ => return None,
     })
@@ -1117,7 +1147,15 @@ pub const IMPORT_FORMS: &[&str] = &[
     "import \"\\q\"",
     "m := import \"\"; m",
     "import \"a\\0b\"",
+    // (26) the content of a string literal of the file; (27) all names of the file
+    "m := import \"p\"; (m.label == \"10\u{a0}km\", std.len(m.label))",
+    "m := import \"p\"; (m.g, m.G, m.id, m.ID, m.Id)",
+    // (28) a path string longer than 255 bytes whose components are all short (it names `p`)
+    LONG_DOTTED_IMPORT,
 ];
+/// `m := import "./././ ... /p"; m` with 140 `./` components (282 bytes)
+const LONG_DOTTED_IMPORT: &str = "m := import \"./././././././././././././././././././././././././././././././././././././././././././././././././././././././././././././././././././././././././././././././././././././././././././././././././././././././././././././././././././././././././././././././././././././././././././././././p\"; m";
+const LONG_DOTTED_FORM: usize = 28;
 /// forms up to this index import `p` (and possibly `q`) and use at most the members a / s / f
 const LAST_PLAIN_FORM: usize = 9;
 
@@ -1133,6 +1171,8 @@ fn expected_value(form: usize, p: &str, q: &str) -> Option<&'static str> {
         (17, "uses-importer-name", _) => Some("11"),
         (21, "uses-importer-name", _) => Some("9"),
         (22, "uses-importer-name", _) => Some("(4,6)"),
+        (26, "nbsp-literal", _) => Some("(true,5)"),
+        (27, "case-names", _) => Some("(1,2,3,4,5)"),
         _ => None,
     }
 }
@@ -1240,7 +1280,7 @@ pub fn run_import_case(case: &ImportCase, key_seed: u64) -> RunReport {
                 let uses_members = matches!(case.form, 6 | 8);
                 if case.fault.is_none()
                     && case.form != 7
-                    && case.form <= LAST_PLAIN_FORM
+                    && (case.form <= LAST_PLAIN_FORM || case.form == LONG_DOTTED_FORM)
                     && module_names(MODULE_STATES[case.p_state].0).is_some()
                     && q_ok
                     && (!uses_members || MODULE_STATES[case.p_state].0 == "valid")
@@ -1281,7 +1321,7 @@ pub fn run_import_case(case: &ImportCase, key_seed: u64) -> RunReport {
                 rep.events += 1;
                 match r {
                     Err(p) => rep.violation = Some(("exec-panic".into(), format!("executing accepted {desc} panicked: {p}"))),
-                    Ok(Ok(v)) if case.fault.is_none() && (case.form <= 1 || case.form == 9) && module_names(MODULE_STATES[case.p_state].0).is_some() => {
+                    Ok(Ok(v)) if case.fault.is_none() && (case.form <= 1 || case.form == 9 || case.form == LONG_DOTTED_FORM) && module_names(MODULE_STATES[case.p_state].0).is_some() => {
                         let module = match (&v, case.form) {
                             (Variable::Tuple(t), 9) => {
                                 // the importer's own names are untouched
